@@ -246,7 +246,7 @@ def run(ctx, cases_override=None):
         if cases_override is None:
             cand = [k for k, s in enumerate(shapes_of) if len(s) >= 2]
             cand.sort(key=lambda k: (-len(shapes_of[k]), k))
-            nsel = 100 if th else 8
+            nsel = 120 if th else 12
             # the inputs with most jobs plus an even sample of the rest
             sel = cand[:nsel // 2] + cand[nsel // 2::max(1, len(cand) // (nsel // 2))][:nsel // 2]
             sel = sorted(set(sel))
@@ -266,7 +266,8 @@ def run(ctx, cases_override=None):
                 combos += [[2, 2, ctx.seed * 7 + 1], [3, 4, ctx.seed * 7 + 2], [2, 16, ctx.seed * 7 + 3], [64, 16, ctx.seed * 7 + 4]]
             else:
                 combos = [[2, 2, ctx.seed * 100 + n + 1], [3, 4, ctx.seed * 100 + n + 11], [10, 16, 0], [64, 16, ctx.seed * 100 + n + 21], [2, 1, ctx.seed * 100 + n + 31]]
-            mode = inputs[k].get("mode") or ["lint", "ci", "lint-dups", "lint-minsev"][n % 4]
+            # plain lint keeps the weight it had (only there `[+N duplicates]` and the lint.go call order are visible)
+            mode = inputs[k].get("mode") or ["lint", "lint", "ci", "lint", "lint-dups", "lint", "lint", "lint-minsev", "lint", "lint", "ci", "lint"][n % 12]
             bin_inputs.append({"cfg": inputs[k]["cfg"], "rules": inputs[k]["rules"], "two": inputs[k]["two"], "grp": inputs[k]["grp"],
                                "combos": combos, "mode": mode})
         bpath = write_ndjson(ctx.path("c11_bin_inputs.ndjson"), bin_inputs)
